@@ -569,7 +569,8 @@ static shadow_t sh[NPTR];
 /* call sites: a handful of line numbers come up again and again (the same line in two files is two call sites) */
 #define C15_LINE(r) ((long)(rng_chance((r), 1, 3) ? 1 + rng_below((r), 3) : rng_below((r), 5000)))
 static const char *files[] = { "a.c", "twenty_characters__.c", "a_file_name_that_is_much_longer_than_twenty.c", "nineteen_chars___.c", "x",
-                               "exactly_twenty_chr.c" /* 20: fills the field with no room to spare */, "exactly_twenty_chr.cc" /* 21: cut to the name before */, "exactly_twenty_chr.h" /* 20, differs in the last one only */ };
+                               "exactly_twenty_chr.c" /* 20: fills the field with no room to spare */, "exactly_twenty_chr.cc" /* 21: cut to the name before */, "exactly_twenty_chr.h" /* 20, differs in the last one only */,
+                               "caf\xe9_tools.c", "\xfc" "ber/r\xc3\xa9sum\xc3\xa9_longer_than_twenty.c" /* bytes above 0x7f are characters of a name like any other */ };
 
 const char *shim_file(void);
 void *shim_malloc(size_t n, unsigned long *line);
@@ -622,7 +623,7 @@ static void exec_c15_api(const plan_t *p)
         const char *k = o->kind;
         int s = (int)o->a[0], tracking = libast_debug_level >= 5 && (!viamacro || shim_debug_compiled() >= 5);
         size_t size = (size_t)o->a[1];
-        const char *file = files[(size_t)o->a[2] % 8];
+        const char *file = files[(size_t)o->a[2] % 10];
         unsigned long line = (unsigned long)o->a[3];
         R.cur_op = o; R.cur_op_index = i; R.op_steps = 0;
         if (s < 0 || s >= NPTR) sim_skip("bad-slot");
@@ -726,11 +727,11 @@ static void gen_c15(plan_t *p, rng_t *r)
         int k = (int)rng_below(r, 100), s = (int)rng_below(r, NPTR);
         long size = rng_chance(r, 1, 8) ? 0 : rng_chance(r, 1, 2) ? (long)rng_below(r, 32) : (long)rng_below(r, 600);
         if (untracked_prefix && i == untracked_prefix) plan_op(p, 0, "level", 1, 0L);
-        if (k < 30) plan_op(p, 0, "malloc", 4, (long)s, size, (long)rng_below(r, 8), C15_LINE(r));
-        else if (k < 38) plan_op(p, 0, "calloc", 4, (long)s, size % 60, (long)rng_below(r, 8), C15_LINE(r));
-        else if (k < 46) { op_t *o = plan_op(p, 0, "strdup", 4, (long)s, 0L, (long)rng_below(r, 8), C15_LINE(r)); char w[40]; gen_word(r, w, 0, 30, "abcdef "); op_str(o, w, strlen(w)); }
-        else if (k < 72) plan_op(p, 0, "realloc", 4, (long)s, size, (long)rng_below(r, 8), C15_LINE(r));
-        else plan_op(p, 0, "free", 4, (long)s, 0L, (long)rng_below(r, 8), C15_LINE(r));
+        if (k < 30) plan_op(p, 0, "malloc", 4, (long)s, size, (long)rng_below(r, 10), C15_LINE(r));
+        else if (k < 38) plan_op(p, 0, "calloc", 4, (long)s, size % 60, (long)rng_below(r, 10), C15_LINE(r));
+        else if (k < 46) { op_t *o = plan_op(p, 0, "strdup", 4, (long)s, 0L, (long)rng_below(r, 10), C15_LINE(r)); char w[40]; gen_word(r, w, 0, 30, "abcdef "); op_str(o, w, strlen(w)); }
+        else if (k < 72) plan_op(p, 0, "realloc", 4, (long)s, size, (long)rng_below(r, 10), C15_LINE(r));
+        else plan_op(p, 0, "free", 4, (long)s, 0L, (long)rng_below(r, 10), C15_LINE(r));
     }
 }
 
